@@ -115,15 +115,15 @@ func (sc *Script) records() []out {
 
 // Seen is what the responder received for one request.
 type Seen struct {
-	Params      map[string]string
-	ParamOrder  []string
-	DupParams   []string
-	Stdin       []byte
-	ProtoErrors []string
+	Params       map[string]string
+	ParamOrder   []string
+	DupParams    []string
+	Stdin        []byte
+	ProtoErrors  []string
 	ParamRecords []int // content lengths of the PARAMS records
 	StdinRecords []int
-	Role        int
-	Flags       int
+	Role         int
+	Flags        int
 }
 
 // Server is a running responder.
